@@ -1359,6 +1359,136 @@ def _shared_rule(mod, name, **kw):
     return run
 
 
+def r23_adjacency_kernel(ctx, rule):
+    """The adjacency test of the keyboard walk is a relation on key positions; physical adjacency is SYMMETRIC (if b touches a,
+    a touches b), irreflexive and local (at most one row and one column away).  is_next_on_keyboard decides it by an if/elif chain
+    over (row, pos) of the previous and the current key: the chain is tabulated over the offsets (drow, dpos) in -3..3 - a finite
+    abstract domain, the chain reads nothing else - and the accepted set is checked for those three facts.  (Seed C05-fb merged the
+    'one row down' and 'one row up' branches under abs(): going up then accepts the column to the LEFT, so ('/','l','i','7') is
+    labelled a walk and the true up-right walks are missed: accepted (-1,-1) without (+1,+1).)"""
+    q = DET + 'keyboard_walk.py::is_next_on_keyboard'
+    fn = ctx.fn(q)
+    ctx.stats['functions'].add(q)
+    ps = params(fn)
+    loops = [n for n in fn.body if isinstance(n, ast.For)]
+    if len(ps) != 2 or len(loops) != 1:
+        ctx.unk(rule, q, 'expected two parameters and one loop over the previous positions')
+        return
+    loop = loops[0]
+    # names: `for name, past_data in past.items()`; `cur_data = current[name]`
+    if not (isinstance(loop.target, ast.Tuple) and len(loop.target.elts) == 2 and all(isinstance(e, ast.Name) for e in loop.target.elts)):
+        ctx.unk(rule, q, 'loop target is not (name, data)')
+        return
+    pname, pdata = loop.target.elts[0].id, loop.target.elts[1].id
+    cdata = None
+    for st in loop.body:
+        if isinstance(st, ast.Assign) and len(st.targets) == 1 and isinstance(st.targets[0], ast.Name) and isinstance(st.value, ast.Subscript) \
+                and U(st.value) == '%s[%s]' % (ps[1], pname):
+            cdata = st.targets[0].id
+    if cdata is None:
+        ctx.unk(rule, q, 'the current key position is not bound from %s[%s]' % (ps[1], pname))
+        return
+
+    class Undecided(Exception):
+        pass
+
+    def ev(e, env):
+        if isinstance(e, ast.Constant) and isinstance(e.value, (int, bool)):
+            return e.value
+        if isinstance(e, ast.Subscript) and isinstance(e.value, ast.Name) and e.value.id in (pdata, cdata) and const(e.slice) in ('row', 'pos'):
+            return env[(e.value.id, const(e.slice))]
+        if isinstance(e, ast.Name) and e.id in env:
+            return env[e.id]
+        if isinstance(e, ast.BinOp) and isinstance(e.op, (ast.Add, ast.Sub)):
+            a, b = ev(e.left, env), ev(e.right, env)
+            return a + b if isinstance(e.op, ast.Add) else a - b
+        if isinstance(e, ast.UnaryOp) and isinstance(e.op, ast.USub):
+            return -ev(e.operand, env)
+        if isinstance(e, ast.UnaryOp) and isinstance(e.op, ast.Not):
+            return not ev(e.operand, env)
+        if isinstance(e, ast.Call) and call_name(e) == 'abs' and len(e.args) == 1:
+            return abs(ev(e.args[0], env))
+        if isinstance(e, ast.BoolOp):
+            vals = [ev(v, env) for v in e.values]
+            return all(vals) if isinstance(e.op, ast.And) else any(vals)
+        if isinstance(e, ast.Compare):
+            left = ev(e.left, env)
+            for op, r in zip(e.ops, e.comparators):
+                if isinstance(op, (ast.In, ast.NotIn)) and isinstance(r, (ast.Tuple, ast.List, ast.Set)):
+                    right = [ev(x, env) for x in r.elts]
+                    res = (left in right) if isinstance(op, ast.In) else (left not in right)
+                    if not res:
+                        return False
+                    continue
+                right = ev(r, env)
+                res = {ast.Eq: left == right, ast.NotEq: left != right, ast.Lt: left < right, ast.LtE: left <= right,
+                       ast.Gt: left > right, ast.GtE: left >= right}.get(type(op))
+                if res is None:
+                    raise Undecided(U(e))
+                if not res:
+                    return False
+                left = right
+            return True
+        raise Undecided(U(e))
+
+    def run(stmts, env):
+        """True when a store into the result is executed, False when the pass ends without one."""
+        for st in stmts:
+            if isinstance(st, ast.If):
+                if isinstance(st.test, ast.Compare) and len(st.test.ops) == 1 and isinstance(st.test.ops[0], (ast.In, ast.NotIn)) \
+                        and U(st.test.left) == pname:
+                    continue            # the same-layout test: both keys are on this layout in the tabulated case
+                r = run(st.body if ev(st.test, env) else st.orelse, env)
+                if r is not None:
+                    return r
+            elif isinstance(st, ast.Assign) and len(st.targets) == 1 and isinstance(st.targets[0], ast.Subscript) \
+                    and U(st.targets[0].slice) == pname:
+                return True
+            elif isinstance(st, ast.Assign) and len(st.targets) == 1 and isinstance(st.targets[0], ast.Name):
+                if st.targets[0].id == cdata:
+                    continue
+                env[st.targets[0].id] = ev(st.value, env)
+            elif isinstance(st, ast.Continue):
+                return False
+            elif isinstance(st, (ast.Expr, ast.Pass)) and not any(isinstance(x, ast.Call) for x in ast.walk(st)):
+                continue
+            else:
+                raise Undecided(U(st)[:60])
+        return None
+
+    acc = set()
+    try:
+        for dr in range(-3, 4):
+            for dp in range(-3, 4):
+                for base_r, base_p in ((5, 5), (2, 7)):
+                    env = {(pdata, 'row'): base_r, (pdata, 'pos'): base_p, (cdata, 'row'): base_r + dr, (cdata, 'pos'): base_p + dp}
+                    if run(loop.body, env):
+                        acc.add((dr, dp))
+    except Undecided as e:
+        ctx.unk(rule, q, 'the adjacency chain reads something this rule cannot tabulate: %s' % str(e)[:70])
+        return
+    except (KeyError, TypeError) as e:
+        ctx.unk(rule, q, 'the adjacency chain is not a function of (row, pos) of the two keys: %r' % (e,))
+        return
+    facts = {'accepted_offsets': sorted(acc)}
+    if not ctx.floor(rule, q, len(acc), 4, 'accepted (drow, dpos) offsets'):
+        return
+    probs = []
+    if (0, 0) in acc:
+        probs.append('the same key counts as a step')
+    far = sorted(o for o in acc if abs(o[0]) > 1 or abs(o[1]) > 1)
+    if far:
+        probs.append('keys %s apart are accepted' % far)
+    asym = sorted(o for o in acc if (-o[0], -o[1]) not in acc)
+    if asym:
+        probs.append('offset(s) %s accepted but not the way back' % asym)
+    if probs:
+        ctx.bad(rule, q, 'adjacency relation: ' + '; '.join(probs), 'touching keys is a symmetric, irreflexive, local relation: a K '
+                'segment must be a walk over keys that touch, and the same walk typed backwards must be recognised too', facts, loop, firm=True)
+    else:
+        ctx.ok(rule, q, 'accepted offsets %s: symmetric, irreflexive, within one row and one column' % sorted(acc), facts)
+
+
 def rules(tier):
     return [('C05.R1', r1_splice_discipline), ('C05.R2', r2_slice_tiling), ('C05.R4', r4_multiword_parts),
             ('C05.R5', r5_totality), ('C05.R6', r6_counter_pairing), ('C05.R7', r7_index_space), ('C05.R8', r8_constants),
@@ -1377,7 +1507,9 @@ def rules(tier):
             # mutation sweep (third run): single-token slips in the run scans of detect_digits / detect_alpha
             ('C05.R21', r21_run_scan_siblings),
             # mutation sweep (third run): the year kernel
-            ('C05.R22', r22_year_kernel)]
+            ('C05.R22', r22_year_kernel),
+            # C05-fb: 'one row up' folded into 'one row down' under abs()
+            ('C05.R23', r23_adjacency_kernel)]
 
 
 META = {
